@@ -169,21 +169,28 @@ CaseResult run_dynamic(const RunCtx &ctx, TapeReader &t, unsigned size_hint) {
         big.c = 1;
         ops.push_back(big);
         if (deep_full) { // newer versions / tombstones of the oldest keys in the buffer, then traversals over all the live levels
-            for (unsigned j = 0; j < 2; ++j) {
-                DynOp o2;
-                o2.kind = t.chance(1, 3) ? DynOp::ERASE : DynOp::INS;
-                o2.a = t.below(8);
-                ops.push_back(o2);
+            // the successor of key #j gets a newer version (or a tombstone) in the buffer while its old version sits in the oldest level:
+            // an iterator started at key #j meets the two versions as the very first tie of its k-way merge
+            size_t j = t.below(8);
+            DynOp o2;
+            o2.kind = t.chance(1, 3) ? DynOp::ERASE : DynOp::INS;
+            o2.a = j + 1;
+            ops.push_back(o2);
+            if (t.chance(1, 2)) {
+                DynOp o3;
+                o3.kind = t.chance(1, 2) ? DynOp::ERASE : DynOp::INS;
+                o3.a = j + 2 + t.below(3);
+                ops.push_back(o3);
             }
-            DynOp sc;
-            sc.kind = c05 ? DynOp::LB : DynOp::SCAN;
-            sc.a = 0;
-            ops.push_back(sc);
             DynOp it2;
-            it2.kind = c05 ? DynOp::FIND : DynOp::ITER_FROM;
-            it2.a = t.below(16);
+            it2.kind = c05 ? DynOp::LB : DynOp::ITER_FROM;
+            it2.a = j;
             it2.b = 40;
             ops.push_back(it2);
+            DynOp sc;
+            sc.kind = c05 ? DynOp::FIND : DynOp::SCAN;
+            sc.a = j + 1;
+            ops.push_back(sc);
         }
         n_ops = 20 + t.below(80);
     }
